@@ -7,7 +7,7 @@
    BufferedStream::require/fail carrying stream line()).  AbstractProgram calls are delivered by the
    directive level only: every directive delivers exactly one call after all of its fields have been
    matched (rule.end(&out_) / out_.xyz(...) is the last statement of every case).                     *)
-Require Import V.Lib.Base V.Lib.Calls V.C09.Spec V.Gen.Consts.
+Require Import V.Lib.Base V.Lib.Calls V.C09.Spec V.Gen.Consts V.Gen.Consts_C01.
 Local Open Scope Z_scope.
 
 (* <climits> on the target (int is 32 bit, unsigned is 32 bit) *)
@@ -68,7 +68,7 @@ Definition m_wlits (minW : Z) : parser (list (Z * Z)) :=
   n <- m_count ;; l <- rep (m_wlit minW) n ;; ret (filter nonzero_w l).
 
 (* matchString (after the repair): len = matchPos(INT_MAX); stream()->get(); copy(buf,(int)len) == (int)len *)
-Definition STR_MAX : Z := INT_MAX.
+Definition STR_MAX : Z := rd_str_max.                 (* regenerated from matchString in src/aspif.cpp *)
 (* a_copy k s for k >= 0, evaluated without building the unary number k when k exceeds what is left
    (C01/ProofsPrim.v: copy_k_eq shows copy_k k s = a_copy k s) *)
 Definition copy_k (k : Z) (s : ast) : Z * list Z * ast := a_copy (Z.min k (Z.of_nat (length (rest s)))) s.
@@ -165,10 +165,10 @@ Fixpoint skip_blanks_f (fuel : list Z) (s : ast) : ast :=
   | [] => s
   | _ :: f => let '(b, s') := a_match_tok [32] s in if b then skip_blanks_f f s' else s'
   end.
-Definition tok_asp : list Z := [97; 115; 112; 32].                                       (* "asp " *)
-Definition tok_incremental : list Z := [105; 110; 99; 114; 101; 109; 101; 110; 116; 97; 108].   (* "incremental" *)
-Definition ASPIF_MAJOR : Z := 1.
-Definition ASPIF_MINOR : Z := 0.
+Definition tok_asp : list Z := rd_tok_magic.                                             (* "asp " *)
+Definition tok_incremental : list Z := rd_tok_incremental.                               (* "incremental" *)
+Definition ASPIF_MAJOR : Z := rd_major.
+Definition ASPIF_MINOR : Z := rd_minor.
 
 (* ProgramReader::accept -> AspifInput::doAttach.  Result: Some inc | None (= doAttach returned false) *)
 Definition read_header (s : ast) : list call * res (option bool) :=
